@@ -8,6 +8,7 @@ import (
 	flyt "github.com/mark3labs/flyt"
 
 	"verif/harness/internal/scen"
+	"verif/harness/internal/zoo"
 )
 
 // ActCase: one point of the "a successful run never yields the empty action" grid.
@@ -28,6 +29,8 @@ type ActCase struct {
 	// > "": the same node object was run once before and returned this (custom) action then
 	Earlier string `json:"earlier,omitempty"`
 	CancelInExec bool `json:"cancel_in_exec,omitempty"` // the context is cancelled inside the (successful) exec: the run still succeeds and still reports a non-empty action
+	ExecVal string `json:"exec_val,omitempty"` // scripted kinds: name of the zoo value the exec phase produces (e.g. a value of type flyt.Action, empty or not)
+	NilEnd  bool   `json:"nil_end,omitempty"`  // flow kinds: the inner flow ends because its last node's action is connected to nil (not because it is unconnected)
 }
 
 // zeroBaseNode embeds a BaseNode that did not come from NewBaseNode (zero value, by value / by pointer) and
@@ -92,6 +95,11 @@ func runActCase(cs *ActCase) (fs []finding) {
 			{Kind: scen.KFlow, N: 1, Flow: &scen.FlowSpec{Start: 0}},
 			{Kind: scen.KFlow, N: 1, Flow: &scen.FlowSpec{Start: 1}},
 		}, Root: 1, Runs: 1}
+		if cs.NilEnd {
+			for _, a := range []string{"", "default", "custom", " ", "\t\n"} {
+				sc.Nodes[1].Flow.Conns = append(sc.Nodes[1].Flow.Conns, scen.Conn{From: 0, Action: a, To: -1})
+			}
+		}
 		if cs.Kind == "flow-in-flow" {
 			sc.Root = 2
 		}
@@ -106,6 +114,16 @@ func runActCase(cs *ActCase) (fs []finding) {
 		ns := scen.NodeSpec{Kind: kind, N: 1, HasFB: true, Visits: []scen.Visit{{FirstOK: 1, Post: cs.Post}}}
 		if cs.Earlier != "" {
 			ns.Visits = []scen.Visit{{FirstOK: 1, Post: cs.Earlier}, {FirstOK: 1, Post: cs.Post}}
+		}
+		if cs.ExecVal != "" {
+			for vi := range ns.Visits {
+				ns.Visits[vi].Payload = zoo.Index(cs.ExecVal) - 1 // attempt 1 yields zoo[Payload+1]
+				if cs.ExecPath == 1 {
+					ns.Visits[vi].Payload-- // attempt 2 yields it
+				} else if cs.ExecPath == 2 {
+					ns.Visits[vi].Payload++ // the fallback yields zoo[Payload]
+				}
+			}
 		}
 		switch cs.ExecPath {
 		case 1:
@@ -197,11 +215,21 @@ func runC18(c *Cfg) {
 				if !routed {
 					cases = append(cases, &ActCase{Family: "grid-cancel-in-exec", Kind: scen.KindNames[k], Post: post, FailAt: -1, CancelInExec: true})
 				}
+				// the exec phase yields a value of type flyt.Action (empty / non-empty): still only post decides the action
+				for _, ev := range []string{"flyt-action-empty", "flyt-action", "flyt-action-default"} {
+					for ep := 0; ep < 3; ep++ {
+						if (ep == 1 && !scen.KindHasRetry(k)) || (ep == 2 && !scen.KindCanFB(k)) {
+							continue
+						}
+						cases = append(cases, &ActCase{Family: "grid-action-typed-exec-value", Kind: scen.KindNames[k], Post: post, Routed: routed, FailAt: -1, ExecPath: ep, ExecVal: ev})
+					}
+				}
 				// the node object has been used before and returned a custom action then
 				cases = append(cases, &ActCase{Family: "grid-reused-node", Kind: scen.KindNames[k], Post: post, Routed: routed, FailAt: -1, Earlier: "earlier-custom"})
 			}
 			cases = append(cases, &ActCase{Family: "grid", Kind: "zero-basenode-by-value", Post: post, Routed: routed, FailAt: -1}, &ActCase{Family: "grid", Kind: "zero-basenode-by-pointer", Post: post, Routed: routed, FailAt: -1})
 			cases = append(cases, &ActCase{Family: "grid", Kind: "flow", Post: post, Routed: routed, FailAt: -1}, &ActCase{Family: "grid", Kind: "flow-in-flow", Post: post, Routed: routed, FailAt: -1})
+			cases = append(cases, &ActCase{Family: "grid-flow-ending-on-nil-connection", Kind: "flow", Post: post, Routed: routed, FailAt: -1, NilEnd: true}, &ActCase{Family: "grid-flow-ending-on-nil-connection", Kind: "flow-in-flow", Post: post, Routed: routed, FailAt: -1, NilEnd: true})
 			for n := 0; n <= 3; n++ {
 				for cc := 0; cc <= 2; cc++ {
 					for _, stop := range []bool{false, true} {
